@@ -46,6 +46,8 @@ def hostile_pass(pid, a):
       * the interpreter started with -O (assert statements and `if __debug__` blocks stripped),
       * the process time zone on the other side of UTC than the main pass (a zone with daylight saving),
       * every logger enabled down to DEBUG with a handler that formats each record,
+      * warnings turned into errors (-W error) and bytes/str confusion made an error (-bb),
+      * the decimal context of the process lowered to 6 digits,
       * another PYTHONHASHSEED.
     Its coverage is appended to the evidence of the main pass; a violation found only there is reported like any other (the replay
     file carries the environment and is replayed in it)."""
